@@ -396,7 +396,7 @@ func runC14(c *Ctx, r *Report, tier string) {
 			}
 			t := c.term(ret.Results[0])
 			switch {
-			case strings.HasPrefix(t, "conv[string](append("):
+			case strings.HasPrefix(t, "conv[string](append("), t == "conv[string]("+c.term(acc)+")":
 				r.OK("LONGLINE", rname, "returns string(accumulated line)", c.ipos(ret), "conversion of the accumulated line (a copy)")
 			case t == "conv[string](call:(*bufio.Reader).ReadLine(P0)#0)":
 				_, a := c.Requires(rfl, isInstr(ret), litHas(false, "nonnil(phi{"), nil)
@@ -474,21 +474,30 @@ func runC14(c *Ctx, r *Report, tier string) {
 
 	// ---- PROGRESS
 	if mainLoop != nil {
-		has := false
-		for _, in := range mainLoop.Header.Instrs {
-			if c.isCallTo("readFullLine")(in) {
-				has = true
-			}
-		}
-		r.Check(has, "PROGRESS", fname, "read loop consumes a line per iteration", c.ipos(mainLoop.Header.Instrs[0]), "readFullLine is called in the loop header block: every iteration reads (EOF/error exit)", "the read loop can iterate without calling readFullLine")
+		has := c.everyTripPasses(ri, mainLoop, c.isCallTo("readFullLine"))
+		r.Check(has, "PROGRESS", fname, "read loop consumes a line per iteration", c.ipos(mainLoop.Header.Instrs[0]), "every trip around the read loop passes a readFullLine call (EOF/error exit)", "the read loop can iterate without calling readFullLine")
 	}
 	if rl != nil {
-		has := false
-		for _, in := range rl.Header.Instrs {
-			if c.isCallTo("(*bufio.Reader).ReadLine")(in) {
-				has = true
+		has := c.everyTripPasses(rfl, rl, c.isCallTo("(*bufio.Reader).ReadLine"))
+		r.Check(has, "PROGRESS", rname, "chunk loop consumes input per iteration", c.ipos(rl.Header.Instrs[0]), "every trip around the chunk loop passes a ReadLine call", "the chunk loop can iterate without reading")
+	}
+}
+
+// everyTripPasses: no path from the loop header back to it (via any back edge) avoids an instruction matching via.
+func (c *Ctx) everyTripPasses(fn *ssa.Function, l *Loop, via InstrPred) bool {
+	q := &PathQ{c: c, Fn: fn, CutIn: via}
+	latchEnd := func(x ssa.Instruction) bool {
+		b := x.Block()
+		if x != b.Instrs[len(b.Instrs)-1] || !l.Blocks[b] {
+			return false
+		}
+		for _, s := range b.Succs {
+			if s == l.Header {
+				return true
 			}
 		}
-		r.Check(has, "PROGRESS", rname, "chunk loop consumes input per iteration", c.ipos(rl.Header.Instrs[0]), "ReadLine is called in the loop header block", "the chunk loop can iterate without reading")
+		return false
 	}
+	_, found := q.Reach(Site{l.Header, 0}, 0, latchEnd)
+	return !found
 }
